@@ -73,6 +73,36 @@ def run(case, rec):
     else:
         tree, nodes = build(spec)
     check_tree(tree, rec, len(nodes))
+    if case.get("twin") and nodes and not rec.failed:
+        # a second tree alive in the same process, built from the same spec with the SAME explicit node_ids (ids are
+        # unique per tree only): nodes of different trees are unrelated, whatever their ids say
+        import copy as _copy
+
+        def with_nids(sp, counter):
+            out = []
+            for n in sp:
+                o = dict(n[2]) if len(n) > 2 and n[2] else {}
+                counter[0] += 1
+                o["nid"] = 9000 + counter[0]
+                out.append([n[0], with_nids(n[1], counter), o])
+            return out
+
+        t1, n1 = build(with_nids(_copy.deepcopy(spec), [0]), name="A")
+        t2, n2 = build(with_nids(_copy.deepcopy(spec), [0]), name="B")
+        rec.cls("twin-tree-with-the-same-node_ids")
+        for i in range(min(len(n1), 6)):
+            for j in range(min(len(n2), 6)):
+                a, b = n1[i], n2[(j * 2 + 1) % len(n2)]
+                rec.evals += 1
+                try:
+                    got = (a.get_common_ancestor(b), a.is_descendant_of(b), a.is_ancestor_of(b), b.is_descendant_of(a))
+                except Exception as e:  # noqa: BLE001
+                    rec.fail("twin-tree:query-raises", repr(e)[:120])
+                    return
+                if got != (None, False, False, False):
+                    rec.fail("twin-tree:nodes-of-different-trees-reported-as-related", {"a": repr(a), "b": repr(b), "got": repr(got)})
+                    return
+        check_tree(t1, rec, len(n1))
 
 
 def run_after_history(case, rec):
@@ -131,7 +161,8 @@ def check_tree(tree, rec, n_expected):
     chk("tree.calc_height", tree.calc_height() == (max((depth[id(n)] for n in pre), default=0)), tree.calc_height())
     chk("tree.first_child", tree.first_child() is (top[0] if top else None))
     chk("tree.last_child", tree.last_child() is (top[-1] if top else None))
-    chk("tree.get_toplevel_nodes", same_list(list(tree.get_toplevel_nodes()), top))
+    tl = tree.get_toplevel_nodes()
+    chk("tree.get_toplevel_nodes", isinstance(tl, list) and same_list(tl, top), [repr(tl)[:80]])
 
     interesting = False
     for n in pre:
@@ -261,7 +292,7 @@ def hyp_cases(draw, tier):
     mode = draw(st.sampled_from(["clones", "eqsib", "eqsib", "deep"]))
     if mode == "deep":
         spec = draw(gen.forest_specs(max_nodes=24, max_depth=10, max_width=3, min_nodes=3, alphabet=C10_ALPHA))
-        return {"spec": spec, "factory": draw(st.sampled_from([False, False, True]))}
+        return {"spec": spec, "factory": draw(st.sampled_from([False, False, True])), "twin": draw(st.sampled_from([False, False, True]))}
     spec = draw(gen.forest_specs(max_nodes=18, max_depth=5, max_width=5, min_nodes=3, alphabet=C10_ALPHA))
     if mode == "eqsib":
         # give some nodes the data of one of their siblings under a distinct explicit data_id
